@@ -319,7 +319,7 @@ def parse_iov(s):
 class Check(DiffCheck):
     id = 'C12'
     coq_dirs = ['Base', 'C12']
-    coq_targets = ['C12/C12_Mem.vo', 'C12/C12_MemC.vo', 'C12/C12_Iov.vo', 'C12/C12_Deser.vo', 'C12/C12_Walk.vo', 'C12/C12_Flat.vo', 'C12/C12_Proofs.vo', 'C12/C12_Sep.vo', 'C12/C12_Wire.vo', 'C12/C12_RtD.vo', 'C12/C12_RtS.vo', 'C12/C12_Rt.vo', 'C12/C12_RtC.vo', 'C12/C12_RtC2.vo', 'C12/C12_RtC3.vo', 'C12/C12_Hx.vo', 'C12/C12_View.vo', 'C12/C12_Hb.vo', 'C12/C12_Hb2.vo', 'C12/C12_RtI.vo', 'C12/C12_Crc.vo', 'C12/C12_Ord.vo']
+    coq_targets = ['C12/C12_Mem.vo', 'C12/C12_MemC.vo', 'C12/C12_Iov.vo', 'C12/C12_Deser.vo', 'C12/C12_Walk.vo', 'C12/C12_Flat.vo', 'C12/C12_Proofs.vo', 'C12/C12_Sep.vo', 'C12/C12_Wire.vo', 'C12/C12_RtD.vo', 'C12/C12_RtS.vo', 'C12/C12_Rt.vo', 'C12/C12_RtC.vo', 'C12/C12_RtC2.vo', 'C12/C12_RtC3.vo', 'C12/C12_Hx.vo', 'C12/C12_View.vo', 'C12/C12_Hb.vo', 'C12/C12_Hb2.vo', 'C12/C12_RtI.vo', 'C12/C12_Crc.vo', 'C12/C12_Ord.vo', 'C12/C12_Dyn.vo', 'C12/C12_RtSI.vo', 'C12/C12_RtF.vo']
     properties_v = 'C12/C12_Properties.v'
     extract_v = 'C12/C12_Extract.v'
     runner_ml = 'ocaml/C12_run.ml'
@@ -334,7 +334,9 @@ class Check(DiffCheck):
     assumptions = ['iovec elements handed to deserialize() have non-null bases and denote readable+writable memory (the deserializer rewrites pointers in place)',
                    'total input below 2^31 bytes (iovector::do_malloc casts the size to int)',
                    'the sender starts from m_checksum == 0 (assert in add_checksum) and uses fewer than 28 non-empty pieces (IOVector capacity)',
-                   'CRC32C is uninterpreted in the theorems (a per-byte fold); the executable model instantiates it with the bitwise CRC32C']
+                   'the hash step is uninterpreted in the theorems up to its 32-bit range (a per-byte fold); crc32c_step_in_range proves that range for the bitwise CRC32C step the executable model uses, ser_roundtrip_noiov_checked_crc32c_partial instantiates it',
+                   'ser_roundtrip: the sender\'s buffers (every range a slot points to, to any depth: dn_fs) do not alias each other or the message struct; the value compared is the one readable in the sender memory AFTER serialize (the serializer rewrites summed_size); receiver elements pairwise separated; 1 + |footprint| free allocation slots (upper bound)',
+                   'deser_in_bounds_fields: input elements pairwise separated (= a fragmentation of a byte string; overlapping elements really break the in-place pointer rewriting); members of every struct do not overlap (lay_fs / psep of the static ranges)']
     trusted_base = ['ASan/UBSan (alignment check off: the wire format is byte-packed, x86 tolerates it) with a poisoned fixed arena: exact-size regions per iovec element and per allocation',
                     'python reference (de)serializer on flat byte strings used as the oracle']
 
